@@ -207,11 +207,14 @@ pub struct Case {
     /// message indices as sent: 0 = position in the stream, 1 = all 0 (index-less sources), 2 = every ECU numbers from 0
     /// (merged sources). The oracle identifies messages by their payload tag and judges the order only in mode 0.
     pub index_mode: u8,
+    /// Some((k, ms)): the producer runs in its own thread and pauses ms milliseconds (wall clock) before sending message k;
+    /// None: the channel is filled before the sorter starts
+    pub pause: Option<(usize, u32)>,
 }
 impl Case {
     fn json(&self) -> Value {
         json!({"family": self.family, "table": self.table.name(), "base_us": self.base_us, "window_s": self.window_s,
-            "min_delay_us": self.min_delay_us, "index_mode": self.index_mode, "msgs": self.syms.iter().map(|s| s.name()).collect::<Vec<_>>()})
+            "min_delay_us": self.min_delay_us, "index_mode": self.index_mode, "producer_pause_before_msg_ms": self.pause.map(|(k, ms)| json!([k, ms])), "msgs": self.syms.iter().map(|s| s.name()).collect::<Vec<_>>()})
     }
     fn parse(v: &Value) -> Option<Case> {
         Some(Case {
@@ -222,6 +225,7 @@ impl Case {
             min_delay_us: v["min_delay_us"].as_u64()?,
             syms: v["msgs"].as_array()?.iter().map(|s| Sym::parse(s.as_str()?)).collect::<Option<Vec<_>>>()?,
             index_mode: v["index_mode"].as_u64().unwrap_or(0) as u8,
+            pause: v["producer_pause_before_msg_ms"].as_array().map(|a| (a[0].as_u64().unwrap_or(0) as usize, a[1].as_u64().unwrap_or(0) as u32)),
         })
     }
 }
@@ -286,12 +290,37 @@ pub fn run_case(ctx: &mut Ctx, env: &mut Env, case: &Case) {
             }
         })
         .collect();
-    for (m, ix) in msgs.iter().zip(sent_index.iter()) {
-        let mut m = m.clone();
-        m.index = *ix;
-        tx.send(m).unwrap();
-    }
-    drop(tx);
+    let to_send: Vec<DltMessage> = msgs
+        .iter()
+        .zip(sent_index.iter())
+        .map(|(m, ix)| {
+            let mut m = m.clone();
+            m.index = *ix;
+            m
+        })
+        .collect();
+    let producer = match case.pause {
+        None => {
+            for m in to_send {
+                tx.send(m).unwrap();
+            }
+            drop(tx);
+            None
+        }
+        Some((k, ms)) => {
+            ctx.landmark("paced_producer");
+            Some(std::thread::spawn(move || {
+                for (i, m) in to_send.into_iter().enumerate() {
+                    if i == k {
+                        std::thread::sleep(std::time::Duration::from_millis(ms as u64));
+                    }
+                    if tx.send(m).is_err() {
+                        break;
+                    }
+                }
+            }))
+        }
+    };
     if case.index_mode != 0 {
         ctx.landmark("duplicate_indices");
     }
@@ -308,6 +337,9 @@ pub fn run_case(ctx: &mut Ctx, env: &mut Env, case: &Case) {
             case.min_delay_us,
         )
     });
+    if let Some(p) = producer {
+        let _ = p.join();
+    }
     let mut out = out.into_inner();
     ctx.transitions(n as u64);
     // identify the delivered messages by their payload tag and give them their position as index again
@@ -550,6 +582,7 @@ fn run_family(ctx: &mut Ctx, env: &mut Env, f: &Fam) -> bool {
                                 min_delay_us: *d,
                                 syms: ix.iter().map(|i| f.sigma[*i]).collect(),
                                 index_mode: *im,
+                                pause: None,
                             };
                             run_case(ctx, env, &case);
                         }
@@ -597,6 +630,7 @@ impl C10 {
                                         min_delay_us: *d,
                                         syms: ix.iter().map(|i| sigma[*i]).collect(),
                                         index_mode: *im,
+                                        pause: None,
                                     };
                                     run_case(ctx, env, &case);
                                 }
@@ -631,6 +665,7 @@ impl Prop for C10 {
             workers: 0,
             required_landmarks: vec![
                 "o2_premise_holds",
+                "paced_producer",
                 "duplicate_indices",
                 "o2_premise_fails_reception_decreases",
                 "o2_premise_fails_delay_above_minimum",
@@ -752,12 +787,29 @@ impl Prop for C10 {
         for w in w3 {
             for d in d3 {
                 if ctx.mine() {
-                    let case = Case { family: "empty_stream".into(), table: TableKind::Std, base_us: BASE, window_s: *w, min_delay_us: *d, index_mode: 0, syms: vec![] };
+                    let case = Case { family: "empty_stream".into(), table: TableKind::Std, base_us: BASE, window_s: *w, min_delay_us: *d, index_mode: 0, pause: None, syms: vec![] };
                     run_case(ctx, &mut env, &case);
                 }
             }
         }
         ctx.end_family(true);
+        // a producer that pauses (wall clock) in the middle of the stream: the output is a function of the input
+        // sequence, not of its pacing. Streams whose correct output reorders across the pause.
+        {
+            let sig = alphabet(&[0], &[1000], &late2, &[false]);
+            let len = ctx.tier.pick(3, 4);
+            ctx.begin_family("paced_producer", &format!("A1 x step 1s x late by {{0,2s}}: all streams of length {len} x a producer pause of 800 ms before message k = 1..{} x window 3 s x minimum delay 20 s (real threads, wall clock)", len - 1));
+            enumr::sequences(len, sig.len(), |ix| {
+                for k in 1..len {
+                    if ctx.mine() {
+                        let case = Case { family: "paced_producer".into(), table: TableKind::Std, base_us: BASE, window_s: 3, min_delay_us: 20_000_000, index_mode: 0, pause: Some((k, 800)), syms: ix.iter().map(|i| sig[*i]).collect() };
+                        run_case(ctx, &mut env, &case);
+                    }
+                }
+                true
+            });
+            ctx.end_family(true);
+        }
         for f in &pass1 {
             if !run_family(ctx, &mut env, f) {
                 return;
